@@ -11,3 +11,4 @@ func (c *channel) vp(point string, enabled func() bool)      {}
 func (c *channel) vpPoll() bool                              { return false }
 func (c *channel) verifSelectReady(ctx context.Context) bool { return true }
 func (c *channel) verifLockFree() bool                       { return true }
+func (c *channel) vpWait(point string, signal chan struct{}) {}
